@@ -275,7 +275,7 @@ theorem validSparse_true {kvs : KVs} {d ev : J} {dt : DType} {r c : Int}
     exact ⟨l, rfl, h⟩
 
 theorem denseRows_true {dt : DType} {c : Int} : ∀ (l : List J), denseRows dt (.int c) l = some true →
-    ∀ row ∈ l, ∃ els, pyIter row = some els ∧ (els.length : Int) = c ∧ els.all (isInst dt) = true
+    ∀ row ∈ l, ∃ els, pyIter row = some els ∧ (els.length : Int) = c ∧ els.all (isInst dt) = true ∧ els ≠ []
   | [], _ => by simp
   | x :: xs, h => by
     unfold denseRows at h
@@ -300,8 +300,9 @@ theorem denseRows_true {dt : DType} {c : Int} : ∀ (l : List J), denseRows dt (
             · rename_i hlen
               split at hr
               · cases hr
-              · simp only [Option.some.injEq] at hr
-                exact ⟨els, rfl, pyEqNat_int hlen, hr⟩
+              · rename_i hne
+                simp only [Option.some.injEq] at hr
+                exact ⟨els, rfl, pyEqNat_int hlen, hr, by intro e; apply hne; simp [e]⟩
             · cases hr
         · exact ih row hm
 
@@ -443,5 +444,67 @@ theorem coordOk_written {n m i j : Nat} {v : Rat} (hi : i < n) (hj : j < m) :
   have h3 : ¬ ((j : Int) < 0) := by omega
   have h4 : ¬ ((m : Int) - 1 < (j : Int)) := by omega
   simp [coordOk, pyIter, isInst, Num.ltInt, h1, h2, h3, h4]
+
+/-! ### the loader -/
+
+theorem mapOpt_filterMap {α β : Type} (f : α → Option β) : ∀ (l : List α),
+    (∀ x ∈ l, (f x).isSome = true) → mapOpt f l = some (l.filterMap f) ∧ (l.filterMap f).length = l.length
+  | [], _ => by simp [mapOpt]
+  | x :: xs, h => by
+    have hx := h x (by simp)
+    obtain ⟨ih, il⟩ := mapOpt_filterMap f xs (fun y hy => h y (List.mem_cons_of_mem _ hy))
+    cases hf : f x with
+    | none => rw [hf] at hx; cases hx
+    | some y => simp [mapOpt, hf, ih, List.filterMap_cons, il]
+
+theorem mapOpt_all {α β : Type} (f : α → Option β) (P : β → Prop) : ∀ (l : List α),
+    (∀ x ∈ l, ∃ y, f x = some y ∧ P y) →
+    ∃ ys, mapOpt f l = some ys ∧ ys.length = l.length ∧ ∀ y ∈ ys, P y
+  | [], _ => ⟨[], by simp [mapOpt]⟩
+  | x :: xs, h => by
+    obtain ⟨y, hy, hp⟩ := h x (by simp)
+    obtain ⟨ys, hys, hl, hall⟩ := mapOpt_all f P xs (fun z hz => h z (List.mem_cons_of_mem _ hz))
+    refine ⟨y :: ys, by simp [mapOpt, hy, hys], by simp [hl], ?_⟩
+    intro z hz
+    rcases List.mem_cons.1 hz with rfl | hz
+    · exact hp
+    · exact hall z hz
+
+theorem isInst_numeric {dt : DType} {v : J} (hd : dt = .int ∨ dt = .float) (h : isInst dt v = true) :
+    ∃ q, numVal v = some q ∧ isStr v = false := by
+  rcases hd with rfl | rfl <;> cases v <;> simp [isInst] at h <;> simp [numVal, isStr]
+
+theorem pyIter_nonstr_mem {v : J} {l : List J} (h : pyIter v = some l) {x : J} (hx : x ∈ l)
+    (hi : isStr x = false) : v = .arr l := by
+  cases v with
+  | arr l' => simp [pyIter] at h; rw [h]
+  | str s =>
+    simp [pyIter] at h; subst h
+    simp only [List.mem_map] at hx
+    obtain ⟨c, _, rfl⟩ := hx
+    simp [strOfChar, isStr] at hi
+  | obj kvs =>
+    simp [pyIter] at h; subst h
+    simp only [List.mem_map] at hx
+    obtain ⟨c, _, rfl⟩ := hx
+    simp [isStr] at hi
+  | null => simp [pyIter] at h
+  | bool b => simp [pyIter] at h
+  | int i => simp [pyIter] at h
+  | flt r => simp [pyIter] at h
+
+theorem recordHasFields_some {r : J} (h : recordHasFields r = true) :
+    (getItem r "id").isSome = true ∧ (getItem r "metadata").isSome = true := by
+  cases r <;> simp [recordHasFields] at h
+  simpa [getItem] using h
+
+theorem length_gridOfEntries (n m : Nat) (es : List (Int × Int × Rat)) :
+    (gridOfEntries n m es).length = n ∧ ∀ r ∈ gridOfEntries n m es, r.length = m := by
+  constructor
+  · simp [gridOfEntries]
+  · intro r hr
+    simp only [gridOfEntries, List.mem_map, List.mem_range] at hr
+    obtain ⟨i, _, rfl⟩ := hr
+    simp
 
 end Biom.C15
